@@ -163,7 +163,7 @@ impl IndicatorInstance for MoneyFlowIndexInstance {
 		// when the window holds no money flow at all, both sums are exactly zero whatever residue is left
 		// in them; otherwise the value would be a ratio of residues
 		self.flat = if pos == 0. && neg == 0. {
-			self.flat.saturating_add(1)
+			self.flat.saturating_add(1).min(self.cfg.period)
 		} else {
 			0
 		};
